@@ -246,8 +246,9 @@ Definition K5 (m : nmap) : Prop := forall p, sorted m (ls (m p)).
 (* K6: times are at most MUSCLE_TIME_NEVER *)
 Definition K6 (m : nmap) : Prop := forall x, (sched (m x) <= NEVER)%N /\ (agg (m x) <= NEVER)%N.
 
-(* no parent cycles: a rank that strictly grows from parent to child *)
-Definition acyc (m : nmap) : Prop := exists rk : nat -> nat, forall c p, parent (m c) = Some p -> rk p < rk c.
+(* no parent cycles and finite depth: a bounded rank that strictly grows from parent to child *)
+Definition acyc (m : nmap) : Prop :=
+  exists (rk : nat -> nat) (B : nat), (forall c p, parent (m c) = Some p -> rk p < rk c) /\ (forall x, rk x <= B).
 
 (* a destroyed object takes part in nothing: it has no parent and is nobody's parent *)
 Definition dead_inert (m : nmap) : Prop :=
